@@ -416,7 +416,7 @@ theorem turnN_quiet {J : JointN} {ps : List Peripheral} {k : Nat} (hN : NGood J 
           have hrec := receiveReply_dense (m := { J.m with slots := denseSlots ps' k, cycle := .dx j, lastEvents := {} })
             (ps := ps') (k := k) (j := j) rfl rfl hj' (by rw [hl]; exact hN.n256) t
           simp only [hrr'] at hrec
-          simp only [hser, hexp, hbus, Delivery.deliver, htel, haddr, hrec]
+          simp only [midDiag, hser, hexp, hbus, Delivery.deliver, htel, haddr, hrec]
           have hvr : VisitedRange J.fp ps J.ss (ps'.set j p2) (J.ss.set j ((J.ss.getD j default).receive h pdu).1) i (j + 1) := by
             refine ⟨by simp [hl], by simp, ?_, ?_⟩
             · intro l hl1 hl2
